@@ -28,8 +28,10 @@ pub enum W {
     RemoveLabel,    // REMOVE a:L1
     InsertTriple,   // SPARQL INSERT DATA t1
     DeleteTriple,   // SPARQL DELETE DATA t0
+    InsertTriple0,  // SPARQL INSERT DATA t0 (already present: idempotent)
+    DeleteTriple1,  // SPARQL DELETE DATA t1
 }
-pub const ALL_W: [W; 12] = [W::CreateNode, W::SetProp, W::DeleteNodeB, W::CreateEdge, W::DeleteEdge, W::RemoveProp, W::AddLabel, W::RemoveLabel, W::InsertTriple, W::DeleteTriple, W::CreateNodeApi, W::CreateEdgeApi];
+pub const ALL_W: [W; 14] = [W::CreateNode, W::SetProp, W::DeleteNodeB, W::CreateEdge, W::DeleteEdge, W::RemoveProp, W::AddLabel, W::RemoveLabel, W::InsertTriple, W::DeleteTriple, W::CreateNodeApi, W::CreateEdgeApi, W::InsertTriple0, W::DeleteTriple1];
 fn wname(w: W) -> &'static str {
     match w {
         W::CreateNode => "create-node",
@@ -44,6 +46,8 @@ fn wname(w: W) -> &'static str {
         W::RemoveLabel => "remove-label",
         W::InsertTriple => "insert-triple",
         W::DeleteTriple => "delete-triple",
+        W::InsertTriple0 => "insert-existing-triple",
+        W::DeleteTriple1 => "delete-inserted-triple",
     }
 }
 fn wparse(s: &str) -> Option<W> {
@@ -164,6 +168,12 @@ fn apply(g: &mut MGraph, op: &Op) {
         }
         W::DeleteTriple => {
             g.triples.remove(&0);
+        }
+        W::InsertTriple0 => {
+            g.triples.insert(0);
+        }
+        W::DeleteTriple1 => {
+            g.triples.remove(&1);
         }
     }
 }
@@ -567,6 +577,12 @@ impl Model {
             }
             W::DeleteTriple => {
                 let _ = sess.execute_sparql(&format!("DELETE DATA {{ {T0} }}"));
+            }
+            W::InsertTriple0 => {
+                let _ = sess.execute_sparql(&format!("INSERT DATA {{ {T0} }}"));
+            }
+            W::DeleteTriple1 => {
+                let _ = sess.execute_sparql(&format!("DELETE DATA {{ {T1} }}"));
             }
         }
         op
